@@ -555,15 +555,17 @@ MErr(dev) == MR("E", "", dev)
 \* np.isclose(l, r, rtol=1e-6) is |l-r| <= 1e-8 + 1e-6*|r|
 MCmpMag(op, l, kl, r, kr, conv) ==
   LET c == QCmp(l, r)  dk == kl - kr  adk == AbsI(dk)
-      \* equal bases: |dk|*1e-7*|r| <= 1e-8 + 1e-6*|r|   <=>   |dk|*|r| <= 1/10 + 10*|r|
+      \* equal bases: |dk|*1e-7*|r| <= atol + 1e-6*|r|   <=>   |dk|*|r| <= atol*1e7 + 10*|r|
+      \* atol = 1e-8 is np.isclose's default; 0 once "eq_abs_tolerance" is repaired (atol=0)
+      atol == IF "eq_abs_tolerance" \in OpenDevs THEN Q(1, 1, -8) ELSE QZero
       lhs == QMul(QInt(adk), QAbs(r))
-      rhs == QAdd(Q(1, 1, -1), QMul(QInt(10), QAbs(r)))
+      rhs == QAdd(QMul(atol, Q(1, 1, 7)), QMul(QInt(10), QAbs(r)))
       m == QCmp(lhs, rhs)
       edge == QCmp(QMul(QInt(adk + 1), QAbs(r)), rhs) # QCmp(QMul(QInt(IF adk = 0 THEN 0 ELSE adk - 1), QAbs(r)), rhs)
       close == IF c = 2 \/ m = 2 THEN "U"
                ELSE IF c = 0 THEN (IF edge THEN "U" ELSE IF m <= 0 THEN "T" ELSE "F")
                \* different bases are far apart relative to 1e-6; only the absolute term can join them
-               ELSE LET diff == QAbs(QSub(l, r))  a == QCmp(diff, QAdd(Q(1, 1, -8), QMul(Q(1, 1, -6), QAbs(r)))) IN
+               ELSE LET diff == QAbs(QSub(l, r))  a == QCmp(diff, QAdd(atol, QMul(Q(1, 1, -6), QAbs(r)))) IN
                     IF a = 2 THEN "U" ELSE IF a <= 0 THEN "T" ELSE "F"
       lt == IF c = 2 THEN "U" ELSE IF c < 0 THEN "T" ELSE IF c > 0 THEN "F"
             ELSE IF dk < 0 THEN "T" ELSE IF dk > 0 THEN "F" ELSE IF conv THEN "U" ELSE "F"
@@ -592,29 +594,33 @@ MagIn(x, to) == IF NeedsConv(x.u, to) THEN QSub(QDiv(ABase(x), USc(to)), UOff(to
 \* int(<value>) of a literal for an int node: int('2.0') raises; after a conversion the float is truncated
 \* (only values whose truncation is exact stay comparable in the model)
 MCmpNum(op, x, y) ==
-  IF x.kind = "lit" /\ y.kind = "lit" THEN
+  IF x.kind = "lit" /\ y.kind = "lit" /\ "lit_vs_lit" \in OpenDevs THEN
        \* _prepare: self.value = float(self.value); other stays a STRING, units are ignored
        IF op = "==" THEN MR(MCmpMag("==", AMag(x), x.k, AMag(y), y.k, FALSE), ResType("=="), {"lit_vs_lit"})
        ELSE IF op = "!=" THEN MR(Neg3(MCmpMag("==", AMag(x), x.k, AMag(y), y.k, FALSE)), "BT", {"lit_vs_lit"})
        ELSE MErr({"lit_vs_lit"})                                       \* float < str : TypeError
-  ELSE IF x.kind # "lit" /\ y.kind # "lit" /\ x.kind # y.kind THEN
+  ELSE IF x.kind # "lit" /\ y.kind # "lit" /\ x.kind # y.kind /\ "inode_vs_fnode" \in OpenDevs THEN
        MErr({"inode_vs_fnode"})                                        \* raise Exception(.., expr): NameError
-  ELSE IF x.kind # "lit" /\ y.kind # "lit" THEN
-       \* both nodes of one type: SELF is converted into the other's unit
+  ELSE IF (x.kind = "lit") = (y.kind = "lit") THEN
+       \* two nodes (of one type; of either number type once "inode_vs_fnode" is repaired) or, once
+       \* "lit_vs_lit" is repaired, two literals: SELF is converted into the other's unit
        IF ConvFails(x.u, y.u) THEN MErr({})
        ELSE MR(MCmpMag(op, MagIn(x, y.u), x.k, AMag(y), y.k, NeedsConv(x.u, y.u)), ResType(op), {})
   ELSE \* one literal, one node: the LITERAL is converted into the node's unit and cast with the node's dtype
+       \* (as a number, integral or not, once "inode_vs_float_text" / "inode_vs_fraction" are repaired)
        LET lit == IF x.kind = "lit" THEN x ELSE y
            nod == IF x.kind = "lit" THEN y ELSE x
            conv == NeedsConv(lit.u, nod.u)
            mag == MagIn(lit, nod.u)
+           trunc == nod.kind = "inode" /\ "inode_vs_fraction" \in OpenDevs
        IN IF ConvFails(lit.u, nod.u) THEN MErr({})
-          ELSE IF nod.kind = "inode" /\ ~conv /\ lit.ft THEN MErr({"inode_vs_float_text"})   \* int('2.0')
-          ELSE IF nod.kind = "inode" /\ conv /\ lit.k # 0 THEN MR("U", ResType(op), {})   \* int() of a value next to an integer
-          ELSE IF nod.kind = "inode" /\ conv /\ ~QIsInteger(mag) THEN
+          ELSE IF nod.kind = "inode" /\ ~conv /\ lit.ft /\ "inode_vs_float_text" \in OpenDevs
+               THEN MErr({"inode_vs_float_text"})   \* int('2.0')
+          ELSE IF trunc /\ conv /\ lit.k # 0 THEN MR("U", ResType(op), {})   \* int() of a value next to an integer
+          ELSE IF trunc /\ conv /\ ~QIsInteger(mag) THEN
                \* int(2.5) = 2 : compared after truncation
                MR("U", ResType(op), {"inode_vs_fraction"})
-          ELSE LET lk == IF nod.kind = "inode" THEN 0 ELSE lit.k IN
+          ELSE LET lk == IF trunc THEN 0 ELSE lit.k IN
                IF x.kind = "lit"
                THEN MR(MCmpMag(op, mag, lk, AMag(nod), nod.k, conv), ResType(op), {})
                ELSE MR(MCmpMag(op, AMag(nod), nod.k, mag, lk, conv), ResType(op), {})
